@@ -175,23 +175,24 @@ func doVerify(e *sxg.Exchange, kc *keyCert, sec int64, ns int, phase string) ver
 
 // sxSpec describes an exchange to build and sign.
 type sxSpec struct {
-	ver     version.Version
-	uri     string
-	method  string
-	reqh    http.Header
-	status  int
-	resph   http.Header
-	payload []byte
-	rs      int
-	certURL string
-	vURL    string
-	date    int64
-	expires int64
-	dateNs  int64 // sub-second parts of the Signer's Date / Expires (the format carries whole seconds: floor)
-	expNs   int64
-	skipMI  bool
-	shared  bool // sign through the long-lived Signer object (fields updated in place between exchanges)
-	rawVURL bool // hand vURL to the signer verbatim (a spelling url.Parse would normalise: upper-case scheme, empty fragment)
+	ver       version.Version
+	uri       string
+	method    string
+	reqh      http.Header
+	status    int
+	resph     http.Header
+	payload   []byte
+	rs        int
+	certURL   string
+	vURL      string
+	date      int64
+	expires   int64
+	dateNs    int64 // sub-second parts of the Signer's Date / Expires (the format carries whole seconds: floor)
+	expNs     int64
+	skipMI    bool
+	shared    bool // sign through the long-lived Signer object (fields updated in place between exchanges)
+	rawVURL   bool // hand vURL to the signer verbatim (a spelling url.Parse would normalise: upper-case scheme, empty fragment)
+	foreignMI bool // protect the payload with the other drafts' MI scheme (sxg-pol scenario)
 }
 
 // one Signer object used for many exchanges, its certificate / key / times replaced between them
